@@ -816,6 +816,7 @@ class ListBox(Widget, WidgetContainerMixin):
         """
         vt, va = normalize_valign(valign, ListBoxError)
         self.set_focus_valign_pending = vt, va
+        self._invalidate()
 
     def set_focus(self, position, coming_from: Literal["above", "below"] | None = None) -> None:
         """
